@@ -402,3 +402,33 @@ class RepoIndex:
 
     def source_hashes(self):
         return {m.name: m.sha256 for m in self.modules.values()}
+
+    def structure_hash(self):
+        """hash of everything outside function bodies: module lists, imports, class headers, bases, slots,
+        class/module level assignments, function signatures and decorators (bodies are tracked per function)"""
+        import copy
+
+        class Strip(ast.NodeTransformer):
+            def _strip(self, node):
+                node = copy.copy(node)
+                node.body = [ast.Pass()]
+                return node
+
+            def visit_FunctionDef(self, node):
+                return self._strip(node)
+
+            def visit_AsyncFunctionDef(self, node):
+                n = self._strip(node)
+                return n
+
+        h = hashlib.sha256()
+        for name in sorted(self.modules):
+            m = self.modules[name]
+            tree = Strip().visit(copy.deepcopy(m.tree))
+            h.update(name.encode())
+            h.update(ast.dump(tree).encode())
+            # generator-ness / async-generator-ness is part of the signature
+            for node in ast.walk(m.tree):
+                if isinstance(node, (ast.FunctionDef, ast.AsyncFunctionDef)):
+                    h.update(("%s:%s;" % (node.name, _has_yield(node))).encode())
+        return h.hexdigest()
